@@ -269,6 +269,23 @@ func unwrapBound(f *ssa.Function) *ssa.Function {
 	return f
 }
 
+// CalleeThroughBound is StaticCallee that also resolves a call of a bound
+// method value created in place (`x.M` used as a function value, as in
+// `for v := range q.Each`): the method behind the $bound wrapper.
+func CalleeThroughBound(c *ssa.CallCommon) *ssa.Function {
+	if g := c.StaticCallee(); g != nil {
+		return unwrapBound(g)
+	}
+	if mc, ok := c.Value.(*ssa.MakeClosure); ok {
+		if fn, ok := mc.Fn.(*ssa.Function); ok {
+			if u := unwrapBound(fn); u != fn {
+				return u
+			}
+		}
+	}
+	return nil
+}
+
 func (p *Prog) buildCallers() {
 	p.callers = map[*ssa.Function][]Site{}
 	p.valueRef = map[*ssa.Function]bool{}
@@ -2238,7 +2255,19 @@ func Contradictory(conds []Cond) bool {
 // the first return. ok is false when a value outside the recognised forms
 // decides a branch or the result, or the walk does not terminate quickly.
 func EvalBool(f *ssa.Function, atomOf func(ssa.Value) (name string, neg, ok bool), assign map[string]bool) (result, ok bool) {
-	if len(f.Blocks) == 0 {
+	return evalBool(nil, f, atomOf, assign, 0)
+}
+
+// EvalBool is the package-level EvalBool that additionally looks into calls of
+// the repository's own private boolean helpers (interpreting them under the
+// same assignment), so that a predicate split into smaller predicates is
+// judged like the original.
+func (p *Prog) EvalBool(f *ssa.Function, atomOf func(ssa.Value) (name string, neg, ok bool), assign map[string]bool) (result, ok bool) {
+	return evalBool(p, f, atomOf, assign, 0)
+}
+
+func evalBool(p *Prog, f *ssa.Function, atomOf func(ssa.Value) (name string, neg, ok bool), assign map[string]bool, level int) (result, ok bool) {
+	if len(f.Blocks) == 0 || level > 3 {
 		return false, false
 	}
 	var prev *ssa.BasicBlock
@@ -2269,6 +2298,12 @@ func EvalBool(f *ssa.Function, atomOf func(ssa.Value) (name string, neg, ok bool
 		case *ssa.Phi:
 			if r, done := phiVal[x]; done {
 				return r, true
+			}
+		case *ssa.Call:
+			if p != nil {
+				if h := x.Call.StaticCallee(); h != nil && p.InRepo[h] && h.Signature.Results().Len() == 1 && h.Signature.Results().At(0).Type().String() == "bool" {
+					return evalBool(p, h, atomOf, assign, level+1)
+				}
 			}
 		}
 		return false, false
